@@ -910,12 +910,18 @@ func c11History(r *hx.R, root string, idx int, tier string, st *c11Stats) hx.Cas
 	}
 	unlock()
 
+	known := "" // the known-finding class the history lies in, if any (set by the tails below)
 	// settle: poll the cache until it answers like a cache freshly built from the directories as they are now (twice, 15 ms apart)
 	settle := func() (fresh, got c11Answer, converged bool, wait time.Duration) {
 		fresh = c11Fresh(confDirs)
-		limit := 3 * time.Second
-		if st.notConverged >= 6 {
-			limit = 400 * time.Millisecond // enough evidence already; keep the run short
+		// "soon": what the property is about is a cache that stays behind for good; ten seconds leave room for a machine
+		// that is busy with other things, and cost nothing when the cache converges
+		limit := 10 * time.Second
+		if known != "" {
+			limit = 3 * time.Second // a history inside a known-finding class is expected to stay behind
+		}
+		if st.notConverged >= 4 {
+			limit = time.Second // enough evidence already; keep the run short
 		}
 		start := time.Now()
 		for sleep := 200 * time.Microsecond; ; {
@@ -948,7 +954,6 @@ func c11History(r *hx.R, root string, idx int, tier string, st *c11Stats) hx.Cas
 	// "directory removed and re-created with content before the watcher handles the removal; the watcher catches
 	// up; the directory is removed again with no query in between"
 	tail := "none"
-	known := ""
 	kTail := r.Intn(100)
 	if onlyPrelude {
 		kTail = 99
